@@ -388,9 +388,9 @@ fn thread_race(c: &mut Case, rounds: usize) {
 
 pub fn run(ctx: &Ctx, evidence: Option<&PathBuf>) -> i32 {
     let scale = ctx.scale;
-    ctx.run_fixed("hook-directed", 400, hook_windows);
+    ctx.run_fixed("hook-directed", ctx.dn(400), hook_windows);
     ctx.run_cases("hook-windows", ctx.size(40_000, 2_000_000), hook_windows);
-    ctx.run_fixed("shutdown-directed", 24, |c| shutdown_points(c, scale));
+    ctx.run_fixed("shutdown-directed", ctx.dn(24), |c| shutdown_points(c, scale));
     ctx.run_cases("shutdown-points", ctx.size(60, 6_000), |c| shutdown_points(c, scale));
     let (runs, rounds) = match scale {
         Scale::Full => (ctx.size(16, 400), 150),
